@@ -164,14 +164,14 @@ def generate(bases, seed, tier):
                                 "edits": [{"k": "xml", "from": frm, "to": f'type="Blob" fileOffset="{m.group(1)}" length="{nl}"', "nth": nth},
                                           {"k": "log", "off": lp + 8, "bytes": le(seclen, 8)}], "reseal": True})
         # pairs (pairwise sampling)
-        npairs = 600 if tier == "thorough" else 60
+        npairs = 20000 if tier == "thorough" else 60
         for _ in range(npairs):
             a, b = r.sample(singles, 2)
             # xml edits first (they rebuild the file), then binary ones
             e = sorted(a["edits"] + b["edits"], key=lambda x: 0 if x["k"] == "xml" else 1)
             out.append({"base": bi, "name": a["name"] + " & " + b["name"].split(":", 1)[1], "edits": e, "reseal": True})
         # unsealed damage: byte mutations, truncations, extensions
-        nraw = 300 if tier == "thorough" else 40
+        nraw = 12000 if tier == "thorough" else 40
         for k in range(nraw):
             kind = k % 4
             if kind == 0:
